@@ -9,7 +9,7 @@
    constant stream), `c` = the context is already cancelled.
    `somes asg` lists the paths of the participating clients. *)
 From ST Require Import Base.Ints Base.Sorting Model.NtpTime Model.Ftm Model.Sample Model.PathAssign Model.PathOracle
-  Proofs.SampleProofs Proofs.PathAssignProofs Proofs.PathOracleProofs Proofs.ReservoirProofs Proofs.C15Main.
+  Proofs.SampleProofs Proofs.PathAssignProofs Proofs.PathOracleProofs Proofs.ReservoirProofs Proofs.ReservoirSetProofs Proofs.C15Main.
 From Coq Require Import Sorting.Permutation Sorting.Sorted.
 Open Scope Z_scope.
 
@@ -164,16 +164,54 @@ Proof. exact sample_panic_iff. Qed.
 Print Assumptions C15_sample_panic_iff.
 
 (* Uniformity of the reservoir with exactly uniform draws.
-   Full statement (NOT proved here): every k-subset of the n candidates is produced by the same number
-   ((n-k)!) of draw vectors.
-   Proved (partial): every candidate e < n is in the final reservoir for the same number of draw vectors,
-   namely the fraction k/n of all (k+1)(k+2)...n of them - for all k <= n.  cnt is a count of draw vectors
-   (C15_reservoir_cnt_counts), the model's picks are those of its draws and carrying them out on the
-   candidate indices is `run` (C15_reservoir_model_draws, C15_reservoir_run_picks). *)
-Theorem C15_reservoir_uniform_partial : forall k n e : nat,
+   A draw vector is the sequence of the RandIntn results of the loop of Sample(k, n): js = [j_k; ...; j_(n-1)]
+   with 0 <= j_i <= i; `vectors k (n-k)` lists all of them, each once (C15_reservoir_vectors_spec); there are
+   (k+1)(k+2)...n = n!/k! (C15_reservoir_total).  `run k (seq 0 k) k js` is the content of the k array slots
+   after carrying out the pick calls of these draws on the candidate indices (C15_reservoir_model_draws,
+   C15_reservoir_run_picks); it always holds k distinct candidates below n (C15_reservoir_output_k_subset).
+   Which slot holds which selected candidate is not uniform (for k = n the slots are always 0..k-1 in order),
+   so the statement is about the SET of selected candidates (same_set, C15_reservoir_same_set_spec):
+   every k-subset T of the n candidates is selected by exactly (n-k)! draw vectors - independent of T -
+   i.e. with probability (n-k)! k!/n! = 1/C(n,k), for all k <= n. *)
+Theorem C15_reservoir_uniform : forall (k n : nat) (T : list nat),
+  (k <= n)%nat -> NoDup T -> length T = k -> (forall x, In x T -> (x < n)%nat) ->
+  length (filter (fun js => same_set T (run k (seq 0 k) k js)) (vectors k (n - k))) = fact (n - k).
+Proof. exact reservoir_subset_uniform. Qed.
+Print Assumptions C15_reservoir_uniform.
+
+Theorem C15_reservoir_same_set_spec : forall a b, same_set a b = true <-> (forall x, In x a <-> In x b).
+Proof. exact same_set_spec. Qed.
+Print Assumptions C15_reservoir_same_set_spec.
+
+(* vectors i m = all [j_i; ...; j_(i+m-1)] with j_t <= t, without repetition *)
+Theorem C15_reservoir_vectors_spec : forall i m,
+  (forall js, In js (vectors i m) <-> length js = m /\ vec_ok i js) /\ NoDup (vectors i m).
+Proof. intros. split; [intros; apply vectors_spec|apply vectors_NoDup]. Qed.
+Print Assumptions C15_reservoir_vectors_spec.
+
+Theorem C15_reservoir_total : forall k n : nat, (k <= n)%nat -> (length (vectors k (n - k)) * fact k = fact n)%nat.
+Proof. exact reservoir_total. Qed.
+Print Assumptions C15_reservoir_total.
+
+Theorem C15_reservoir_output_k_subset : forall (k n : nat) js, (k <= n)%nat -> length js = (n - k)%nat ->
+  length (run k (seq 0 k) k js) = k /\ NoDup (run k (seq 0 k) k js)
+  /\ (forall x, In x (run k (seq 0 k) k js) -> (x < n)%nat).
+Proof. exact reservoir_output_k_subset. Qed.
+Print Assumptions C15_reservoir_output_k_subset.
+
+(* the draws of the model's loop (C15_reservoir_model_draws) are one of the enumerated vectors *)
+Theorem C15_reservoir_draws_enumerated : forall js i,
+  draws_ok (Z.of_nat i) js -> In (map Z.to_nat js) (vectors i (length js)).
+Proof. exact draws_in_vectors. Qed.
+Print Assumptions C15_reservoir_draws_enumerated.
+
+(* Per candidate (a consequence proved on its own): every candidate e < n is in the final reservoir for the
+   same number of draw vectors, namely the fraction k/n of all (k+1)(k+2)...n of them - for all k <= n.
+   cnt is a count of draw vectors (C15_reservoir_cnt_counts). *)
+Theorem C15_reservoir_inclusion_uniform : forall k n e : nat,
   (k <= n)%nat -> (e < n)%nat -> (cnt k e (seq 0 k) k (n - k) * n = k * total_range k (n - k))%nat.
 Proof. exact reservoir_inclusion_uniform. Qed.
-Print Assumptions C15_reservoir_uniform_partial.
+Print Assumptions C15_reservoir_inclusion_uniform.
 
 Theorem C15_reservoir_cnt_counts : forall k e res i m,
   cnt k e res i m = length (filter (fun js => memb e (run k res i js)) (vectors i m))
@@ -219,4 +257,21 @@ Example C15_example_threshold : (* 2^32 mod 6 = 4: the word 4 is rejected, 5 acc
 Proof. vm_compute. repeat split. Qed.
 
 Example C15_example_inclusion : (cnt 2 3 (seq 0 2) 2 3 * 5 = 2 * total_range 2 3)%nat /\ total_range 2 3 = 60%nat.
+Proof. vm_compute. split; reflexivity. Qed.
+
+(* Sample(2, 5): each of the C(5,2) = 10 subsets is selected by (5-2)! = 6 of the 3*4*5 = 60 draw vectors;
+   as an ordered pair of slots the outcome is not uniform: [1; 0] is never produced *)
+Example C15_example_subsets :
+  map (fun T => length (filter (fun js => same_set T (run 2 (seq 0 2) 2 js)) (vectors 2 3)))
+      [[0;1]; [0;2]; [0;3]; [0;4]; [1;2]; [1;3]; [1;4]; [2;3]; [2;4]; [4;3]]%nat
+  = [6; 6; 6; 6; 6; 6; 6; 6; 6; 6]%nat
+  /\ fact (5 - 2) = 6%nat /\ length (vectors 2 3) = 60%nat
+  /\ filter (fun js => if list_eq_dec Nat.eq_dec (run 2 (seq 0 2) 2 js) [1; 0]%nat then true else false) (vectors 2 3) = [].
+Proof. vm_compute. repeat split; reflexivity. Qed.
+
+(* k = 1 and k = n *)
+Example C15_example_subsets_edge :
+  map (fun T => length (filter (fun js => same_set T (run 1 (seq 0 1) 1 js)) (vectors 1 3))) [[0]; [1]; [2]; [3]]%nat
+  = [6; 6; 6; 6]%nat
+  /\ length (filter (fun js => same_set [2; 0; 1]%nat (run 3 (seq 0 3) 3 js)) (vectors 3 0)) = 1%nat.
 Proof. vm_compute. split; reflexivity. Qed.
